@@ -11,7 +11,9 @@ fn toks(s: &str) -> Vec<TokenTree> {
 }
 
 fn pool_token(d: &mut Dna) -> Vec<TokenTree> {
-    const POOL: [&str; 58] = [
+    const POOL: [&str; 70] = [
+        // near misses of trait and parameter names with a multi-byte character at every small byte offset
+        "Débug", "Клон", "Paß", "Dé", "Debüg", "Hаsh", "Ｅq", "Ordé", "Intö", "ígnore", "nämé", "Éq",
         "=", ",", "()", "unsafe", "*", "name", "rename", "bound", "ignore", "method", "rank", "expression", "expr", "new", "named_field",
         "Debug", "Clone", "Copy", "PartialEq", "Eq", "PartialOrd", "Ord", "Hash", "Default", "Deref", "DerefMut", "Into", "true", "false",
         "\"\"", "\"x y\"", "\"T: Clone\"", "\"é\"", "'c'", "b'x'", "b\"ab\"", "1.5", "1e400", "0x10", "340282366920938463463374607431768211456",
